@@ -71,11 +71,20 @@ def scenario(args):
         for ag in "AB":
             ev_, stt = s.op(f"checklist {ag} 1")
             best = {}
+            role_now = int(stt.split()[1].split("=")[1])
             for w in stt.split()[2:]:
                 f = w.split(":")
                 # prio:state:nominated:valid:component:laddr:lport>raddr:rport:lprio:rprio
                 prio, nominated, valid, comp = int(f[0]), int(f[2]), int(f[3]), int(f[4])
                 pair = ":".join(f[5:-2])
+                # both agents must compute the same priority for the same pair (mirrored selection depends on it): G is the
+                # controlling side's candidate priority FOR THE ROLE THE AGENT HAS NOW (also after a role switch)
+                lp, rp = int(f[-2]), int(f[-1])
+                G, D = (lp, rp) if role_now else (rp, lp)
+                want = 2 ** 32 * min(G, D) + 2 * max(G, D) + (1 if G > D else 0)
+                if prio != want and (G, D) != (2 ** 32 - 1, 2 ** 32 - 1) and not any(b[0] == "stale-pair-priority" for b in bad):
+                    bad.append(("stale-pair-priority", f"agent {ag} (controlling={role_now}) holds pair {pair} with priority {prio}; for its "
+                                                        f"current role the RFC value is {want} (local {lp}, remote {rp})"))
                 if nominated and valid and (comp not in best or prio > best[comp][0]):
                     best[comp] = (prio, pair)
             for c, (qa, qb) in res2.items():
